@@ -4,6 +4,16 @@ From GV Require Import lib.Base lib.DivLemmas C01.Model C01.Proofs MK.Market MK.
 Open Scope Z_scope.
 Ltac Zify.zify_post_hook ::= Z.div_mod_to_equations.
 
+Lemma gross_le mtv lval sval la0 sa0 pl ps :
+  0 <= mtv -> 0 <= lval -> 0 <= sval -> 0 <= la0 -> 0 <= sa0 -> 0 < pl -> 0 < ps ->
+  (lval + sval) * la0 <= mtv * lval -> (lval + sval) * sa0 <= mtv * sval -> 0 < lval + sval ->
+  la0 / pl * pl + sa0 / ps * ps <= mtv.
+Proof.
+  intros. assert ((lval + sval) * (la0 + sa0) <= (lval + sval) * mtv) by nia.
+  assert (la0 + sa0 <= mtv) by nia.
+  pose proof (div_floor_spec la0 pl ltac:(lia)). pose proof (div_floor_spec sa0 ps ltac:(lia)). lia.
+Qed.
+
 Ltac norm :=
   repeat match goal with
   | H : umul _ _ _ = Some _ |- _ => apply umul_some in H; destruct H as [? ->]
@@ -389,7 +399,7 @@ Section P.
          | |- _ => idtac
          end.
     destruct HLA as [HLA ?]. destruct HSA as [HSA ?].
-    match type of HLA with ?tot * _ <= _ < _ => assert (0 < tot) by nia; assert (tot * (la0 + sa0) <= tot * mtv) by nia end.
-    assert (la0 + sa0 <= mtv) by nia. nia.
+    match type of HLA with (?lv + ?sv) * _ <= _ < _ =>
+      apply (gross_le mtv lv sv); try lia; clear - HLA HSA H22 L1 S1 PL0 PS0; nia end.
   Qed.
 End P.
